@@ -1171,3 +1171,330 @@ Proof.
   split; [eexists; split; vm_compute; reflexivity|].
   eexists. eexists. split; [vm_compute; reflexivity|]. split; [vm_compute; reflexivity|]. split; vm_compute; reflexivity.
 Qed.
+
+(* 25. PathSegmentsMut::push / extend, EXACTLY, and the class F-C06-7 (Proofs/C06_SegPush.v).
+   extend() skips a segment only when it is literally "." or ".." (seg_skipped); every other segment is handed to
+   parse_path in the PathSegmentSetter context, whose input drops TAB / LF / CR.  A segment whose TAB/LF/CR-free text
+   (strip_tnl) is "." or ".." is therefore read as a dot segment: push(".<TAB>.") on http://h/a/b POPS the segment "b"
+   (http://h/a/), push(".<LF>") appends an empty segment - while push("..") / push(".") are skipped as documented.
+   That class is known_c06_7 (computable); no "%2e" spelling is in it: '%' is in the PATH_SEGMENT sets, so it comes out
+   as "%25" (witness below).
+     session_text st P ops   the path text after the operations ops, computed on the path text P alone:
+       clear          -> the first byte of P ("/"; "" stays "")
+       pop_if_empty   -> P without its last byte when that is a '/' behind the first byte
+       pop            -> P up to its last '/' behind the first byte (up to the first byte when there is none)
+       push seg       -> push_text st P seg  (C06_push_text_unfold: P itself for "." / "..", otherwise
+                         P, a '/' unless P is exactly one byte long, and the percent-encoding (PATH_SEGMENT or
+                         SPECIAL_PATH_SEGMENT by scheme type st) of the UTF-8 bytes of seg without TAB/LF/CR)
+       extend segs    -> push after push
+   C06_frame_segments_exact: for a well-formed record that is not cannot-be-a-base, scheme type other than file, &str
+   arguments outside known_c06_7: the record a whole session returns is with_path u (session_text ...) - the very record
+   whose frame / invariant C06_frame_path (and _noauth, _marker) state, now with the path text explicit; the old path is
+   a prefix of the new one for push / extend (C06_push_keeps_prefix).  C06_7_class_exact: for one push of a segment that
+   extend does not skip, the verbatim text is appended IF AND ONLY IF the segment is outside known_c06_7.
+   Not covered: the file scheme (drive-letter rewriting "C|" -> "C:" and, with a TAB inside the segment, a '/' inserted
+   behind a drive letter: file:/// push("C:<TAB>x") gives file:///C:/x). *)
+From RU Require Import Proofs.C06_SegPush.
+
+Theorem C06_7_refuted :
+  wf_b w7_url = true /\ known_c06_7 [46; 9; 46] = true /\ known_c06_7 [46; 10] = true
+  /\ known_c06_7 [46; 46] = false /\ known_c06_7 [37; 50; 101; 9; 46] = false
+  /\ (forall dbg, path_segments_session dbg w7_url [PPush [46; 9; 46]] = Some (w7_popped, SOk))
+  /\ (forall dbg, path_segments_session dbg w7_url [PPush [46; 46]] = Some (w7_url, SOk))
+  /\ (forall dbg, path_segments_session dbg w7_url [PPush [46; 10]] = Some (with_path w7_url [47;97;47;98;47], SOk))
+  /\ (forall dbg, path_segments_session dbg w7_url [PPush [37; 50; 101; 9; 46]]
+                  = Some (with_path w7_url [47;97;47;98;47;37;50;53;50;101;46], SOk))
+  /\ path w7_popped = Some [47; 97; 47]
+  /\ w7_popped <> with_path w7_url (push_text (st_of w7_url) (path_bytes w7_url) [46; 9; 46]).
+Proof. exact c06_7_witness. Qed.
+Check C06_7_refuted :
+  wf_b w7_url = true /\ known_c06_7 [46; 9; 46] = true /\ known_c06_7 [46; 10] = true
+  /\ known_c06_7 [46; 46] = false /\ known_c06_7 [37; 50; 101; 9; 46] = false
+  /\ (forall dbg, path_segments_session dbg w7_url [PPush [46; 9; 46]] = Some (w7_popped, SOk))
+  /\ (forall dbg, path_segments_session dbg w7_url [PPush [46; 46]] = Some (w7_url, SOk))
+  /\ (forall dbg, path_segments_session dbg w7_url [PPush [46; 10]] = Some (with_path w7_url [47;97;47;98;47], SOk))
+  /\ (forall dbg, path_segments_session dbg w7_url [PPush [37; 50; 101; 9; 46]]
+                  = Some (with_path w7_url [47;97;47;98;47;37;50;53;50;101;46], SOk))
+  /\ path w7_popped = Some [47; 97; 47]
+  /\ w7_popped <> with_path w7_url (push_text (st_of w7_url) (path_bytes w7_url) [46; 9; 46]).
+Print Assumptions C06_7_refuted.
+
+(* the witness records are "http://h/a/b" and "http://h/a/" *)
+Example C06_7_witness_text : ser w7_url = B "http://h/a/b" /\ ser w7_popped = B "http://h/a/".
+Proof. split; vm_compute; reflexivity. Qed.
+
+Theorem C06_frame_segments_exact : forall dbg u ops u', wf_b u = true ->
+  byte_eqb (ser u) (scheme_end u + 1) 47 = true -> st_is_file (st_of u) = false ->
+  Forall psm_op_usv ops -> Forall psm_op_plain ops -> path_segments_session dbg u ops = Some (u', SOk) ->
+  path u = Some (path_bytes u) /\ u' = with_path u (session_text (st_of u) (path_bytes u) ops).
+Proof.
+  intros dbg u ops u' W Hsl Hnf Hu Hp H. split; [exact (path_text_is_path u W)|].
+  exact (path_segments_session_exact dbg u ops u' W Hsl Hnf Hu Hp H).
+Qed.
+Check C06_frame_segments_exact : forall dbg u ops u', wf_b u = true ->
+  byte_eqb (ser u) (scheme_end u + 1) 47 = true -> st_is_file (st_of u) = false ->
+  Forall psm_op_usv ops -> Forall psm_op_plain ops -> path_segments_session dbg u ops = Some (u', SOk) ->
+  path u = Some (path_bytes u) /\ u' = with_path u (session_text (st_of u) (path_bytes u) ops).
+Print Assumptions C06_frame_segments_exact.
+
+(* the premises are met: a session of push("x<TAB>y"), extend(["..", "c/%", ""]), pop, push("e-acute") on http://h/a/b *)
+Example C06_frame_segments_exact_inhabited :
+  wf_b w7_url = true /\ byte_eqb (ser w7_url) (scheme_end w7_url + 1) 47 = true /\ st_is_file (st_of w7_url) = false
+  /\ Forall psm_op_usv [PPush [120; 9; 121]; PExtend [[46; 46]; [99; 47; 37]; []]; PPop; PPush [233]]
+  /\ Forall psm_op_plain [PPush [120; 9; 121]; PExtend [[46; 46]; [99; 47; 37]; []]; PPop; PPush [233]]
+  /\ path_segments_session true w7_url [PPush [120; 9; 121]; PExtend [[46; 46]; [99; 47; 37]; []]; PPop; PPush [233]]
+     = Some (with_path w7_url [47;97;47;98;47;120;121;47;99;37;50;70;37;50;53;47;37;67;51;37;65;57], SOk)
+  /\ session_text (st_of w7_url) (path_bytes w7_url) [PPush [120; 9; 121]; PExtend [[46; 46]; [99; 47; 37]; []]; PPop; PPush [233]]
+     = [47;97;47;98;47;120;121;47;99;37;50;70;37;50;53;47;37;67;51;37;65;57].
+Proof. exact session_exact_example. Qed.
+
+Theorem C06_push_text_unfold : forall st P seg ss,
+  push_text st P seg
+  = (if list_eqb seg [46] || list_eqb seg [46; 46] then P
+     else (if (1 <? nlen P) || (nlen P =? 0) then P ++ [47] else P)
+          ++ encode (path_set CPathSegmentSetter st) (utf8_encode (filter not_tnl seg)))
+  /\ extend_text st P ss = fold_left (push_text st) ss P
+  /\ known_c06_7 seg = negb (list_eqb seg [46] || list_eqb seg [46; 46])
+                       && (list_eqb (filter not_tnl seg) [46] || list_eqb (filter not_tnl seg) [46; 46]).
+Proof. intros. repeat split; reflexivity. Qed.
+Check C06_push_text_unfold : forall st P seg ss,
+  push_text st P seg
+  = (if list_eqb seg [46] || list_eqb seg [46; 46] then P
+     else (if (1 <? nlen P) || (nlen P =? 0) then P ++ [47] else P)
+          ++ encode (path_set CPathSegmentSetter st) (utf8_encode (filter not_tnl seg)))
+  /\ extend_text st P ss = fold_left (push_text st) ss P
+  /\ known_c06_7 seg = negb (list_eqb seg [46] || list_eqb seg [46; 46])
+                       && (list_eqb (filter not_tnl seg) [46] || list_eqb (filter not_tnl seg) [46; 46]).
+Print Assumptions C06_push_text_unfold.
+
+Theorem C06_push_keeps_prefix : forall st P seg segs,
+  (exists t, push_text st P seg = P ++ t) /\ (exists t, extend_text st P segs = P ++ t).
+Proof. intros st P seg segs. split; [apply push_text_prefix | apply extend_text_prefix]. Qed.
+Check C06_push_keeps_prefix : forall st P seg segs,
+  (exists t, push_text st P seg = P ++ t) /\ (exists t, extend_text st P segs = P ++ t).
+Print Assumptions C06_push_keeps_prefix.
+
+(* s0 = the serialization in front of the path, P = the path text during the session *)
+Theorem C06_7_class_exact : forall dbg st s0 ps P seg s', nlen s0 = ps -> st_is_file st = false -> usv_list seg ->
+  psm_extend_loop dbg st ps (s0 ++ P) [seg] = Some s' ->
+  (s' = s0 ++ push_text st P seg <-> known_c06_7 seg = false).
+Proof. exact push_class_exact. Qed.
+Check C06_7_class_exact : forall dbg st s0 ps P seg s', nlen s0 = ps -> st_is_file st = false -> usv_list seg ->
+  psm_extend_loop dbg st ps (s0 ++ P) [seg] = Some s' ->
+  (s' = s0 ++ push_text st P seg <-> known_c06_7 seg = false).
+Print Assumptions C06_7_class_exact.
+
+(* both sides of the equivalence occur: on "http://h/a/b" (s0 = "http://h", P = "/a/b") *)
+Example C06_7_class_exact_inhabited :
+  psm_extend_loop true STSpecialNotFile 8 (B "http://h" ++ B "/a/b") [[46; 9; 46]] = Some (B "http://h/a/")
+  /\ psm_extend_loop true STSpecialNotFile 8 (B "http://h" ++ B "/a/b") [[120; 9; 46]] = Some (B "http://h/a/b/x.")
+  /\ push_text STSpecialNotFile (B "/a/b") [120; 9; 46] = B "/a/b/x.".
+Proof. repeat split; vm_compute; reflexivity. Qed.
+
+(* 26. path_segments_mut sessions and set_ip_host as STEPS of the histories (Proofs/C06_PushCanon.v, C06_AllPsm.v).
+   C06_psm_canon: a whole session - any sequence of clear / pop / pop_if_empty / push / extend, arguments outside
+   F-C06-7 - on a canonical record (C02's Canon) with an authority returns a canonical record: the exact evaluation of
+   section 25 is an operation on the canonical path (segments, last segment), and a pushed segment is a good segment
+   of the class (clean for PATH, no '/', no '\' for special schemes, not a dot segment).
+   ReachC6p (C06_AllPsm.v) = the histories of C06_all (ReachC6) + path_segments_mut sessions on URLs with an
+   authority + set_path on the authority-less '/'-led layout without marker (premises of section 29, result not
+   "//"-led) + every step of C02's ReachC3 (C02_Reach4.canon_op3 outside C02's known step classes: set_ip_host,
+   set_host(Some), set_scheme, quirks protocol, set_path / quirks pathname with ANY &str on a URL with an authority).
+   C06_all_p: every record of such a history is Canon, wfh, auth_end_ok, satisfies all_calls (C06_all) and
+   psm_calls: a session returns a canonical record, which is with_path u (session_text ..) - path read-back explicit -
+   with scheme / username / password / host / port / query / fragment unchanged.
+   Hypotheses on the host functions: HostOK2 (C02: HostRT, host_above and the clause for the values set_ip_host is
+   given) and host_nonempty (needed by C02's set_host(Some) step); the host model meets them (example below). *)
+From RU Require Import Model.Host Proofs.C02_Hist Proofs.C16_RT6Model Proofs.C02_SetHostCanon Proofs.C02_Reach4 Proofs.C06_PushCanon Proofs.C06_AllPsm
+  Proofs.C06_PsmEx.
+
+Theorem C06_psm_canon : forall dbg hp hpo hd u ops u', HostRT hp hpo hd -> Canon hp hpo hd u ->
+  has_authority_b u = true -> Forall psm_op_usv ops -> Forall psm_op_plain ops ->
+  path_segments_session dbg u ops = Some (u', SOk) -> nlen (ser u') <= U32_MAX_P -> Canon hp hpo hd u'.
+Proof. intros dbg hp hpo hd u ops u' HRT. exact (psm_Canon dbg hp hpo hd HRT u ops u'). Qed.
+Check C06_psm_canon : forall dbg hp hpo hd u ops u', HostRT hp hpo hd -> Canon hp hpo hd u ->
+  has_authority_b u = true -> Forall psm_op_usv ops -> Forall psm_op_plain ops ->
+  path_segments_session dbg u ops = Some (u', SOk) -> nlen (ser u') <= U32_MAX_P -> Canon hp hpo hd u'.
+Print Assumptions C06_psm_canon.
+
+Definition C06_all_p_statement : Prop := forall dbg hp hpo hd u, HostOK2 hp hpo hd -> host_nonempty hp hpo ->
+  ReachC6p dbg hp hpo hd u ->
+  Canon hp hpo hd u /\ wfh u /\ auth_end_ok u /\ all_calls dbg hp hpo hd u /\ psm_calls dbg hp hpo hd u.
+
+Theorem C06_all_p : C06_all_p_statement.
+Proof. intros dbg hp hpo hd u HOK HNE. exact (all_reach_p dbg hp hpo hd HOK HNE u). Qed.
+Check C06_all_p : forall dbg hp hpo hd u, HostOK2 hp hpo hd -> host_nonempty hp hpo ->
+  ReachC6p dbg hp hpo hd u ->
+  Canon hp hpo hd u /\ wfh u /\ auth_end_ok u /\ all_calls dbg hp hpo hd u /\ psm_calls dbg hp hpo hd u.
+Print Assumptions C06_all_p.
+
+(* psm_calls spelled out (pin of the definition) *)
+Theorem C06_psm_calls_unfold : forall dbg hp hpo hd u, psm_calls dbg hp hpo hd u <->
+  (forall ops u', has_authority_b u = true -> Forall psm_op_usv ops -> Forall psm_op_plain ops ->
+    path_segments_session dbg u ops = Some (u', SOk) -> nlen (ser u') <= U32_MAX_P ->
+    Canon hp hpo hd u' /\ u' = with_path u (session_text (st_of u) (path_bytes u) ops)
+    /\ path u = Some (path_bytes u) /\ path u' = Some (session_text (st_of u) (path_bytes u) ops)
+    /\ same_front dbg u u' /\ query dbg u' = query dbg u /\ fragment dbg u' = fragment dbg u).
+Proof. intros. reflexivity. Qed.
+Check C06_psm_calls_unfold : forall dbg hp hpo hd u, psm_calls dbg hp hpo hd u <->
+  (forall ops u', has_authority_b u = true -> Forall psm_op_usv ops -> Forall psm_op_plain ops ->
+    path_segments_session dbg u ops = Some (u', SOk) -> nlen (ser u') <= U32_MAX_P ->
+    Canon hp hpo hd u' /\ u' = with_path u (session_text (st_of u) (path_bytes u) ops)
+    /\ path u = Some (path_bytes u) /\ path u' = Some (session_text (st_of u) (path_bytes u) ops)
+    /\ same_front dbg u u' /\ query dbg u' = query dbg u /\ fragment dbg u' = fragment dbg u).
+Print Assumptions C06_psm_calls_unfold.
+
+(* the histories of C06_all and of C02's ReachC3 are among them *)
+Theorem C06_reach_c6_c3_p : forall dbg hp hpo hd u, HostOK2 hp hpo hd ->
+  (ReachC6 dbg hp hpo hd u -> ReachC6p dbg hp hpo hd u) /\ (ReachC3 dbg hp hpo hd u -> ReachC6p dbg hp hpo hd u).
+Proof. intros dbg hp hpo hd u HOK. split; [apply ReachC6_C6p | apply ReachC3_C6p]. Qed.
+Check C06_reach_c6_c3_p : forall dbg hp hpo hd u, HostOK2 hp hpo hd ->
+  (ReachC6 dbg hp hpo hd u -> ReachC6p dbg hp hpo hd u) /\ (ReachC3 dbg hp hpo hd u -> ReachC6p dbg hp hpo hd u).
+Print Assumptions C06_reach_c6_c3_p.
+
+(* non-vacuity, on the host model with the IDNA oracle idna_clean:
+   parse "http://h/a/b" ; path_segments_mut { push("x<TAB>y"), pop, extend(["..", "c d"]) } ; set_ip_host(127.0.0.1) *)
+Example C06_all_p_inhabited :
+  HostOK2 (host_parse idna_clean) host_parse_opaque host_display /\ host_nonempty (host_parse idna_clean) host_parse_opaque
+  /\ exists u0 u1 u2, parse_url true (host_parse idna_clean) host_parse_opaque host_display None None (B "http://h/a/b") = POk u0
+    /\ path_segments_session true u0 ex7_ops = Some (u1, SOk)
+    /\ ReachC6p true (host_parse idna_clean) host_parse_opaque host_display u1
+    /\ ser u1 = B "http://h/a/b/c%20d"
+    /\ set_ip_host true host_display u1 (HIpv4 2130706433) = Some (u2, SOk)
+    /\ ReachC6p true (host_parse idna_clean) host_parse_opaque host_display u2
+    /\ ser u2 = B "http://127.0.0.1/a/b/c%20d".
+Proof. exact reach6p_inhabited. Qed.
+
+(* 27. WHOLE-URL parser agreement for the removal call set_host(None) (Proofs/C06_SpliceHostNone.v): on a canonical
+   record with a host whose path starts with '/' but not with "//", a successful set_host(None) (special schemes
+   refuse with EmptyHost) returns the canonical record WITHOUT authority; its serialization is the old one with
+   "//userinfo@host:port" cut out (cut_host, read off the record) and Parser::parse_url on that text returns exactly
+   the setter's record.  The exclusions are the known classes: empty path at the end of the serialization (F-C06-5:
+   the path becomes "/"), empty path followed by a query / fragment (F-C04-1: debug assertion; a release build
+   returns an opaque-path URL), "//"-led path (F-C02-2: no "/." marker) - witnesses in C06_known_refuted. *)
+From RU Require Import Proofs.C06_SpliceHostNone.
+
+Theorem C06_splice_agreement_remove_host : forall dbg hp hpo hd u u', HostRT hp hpo hd -> Canon hp hpo hd u ->
+  has_host u = true -> byte_eqb (ser u) (path_start u) 47 = true -> path_starts_with_2slash u = false ->
+  set_host dbg hp hpo hd u None = Some (u', SOk) ->
+  Canon hp hpo hd u' /\ ser u' = cut_host u /\ parse_url dbg hp hpo hd None None (cut_host u) = POk u'.
+Proof. intros dbg hp hpo hd u u' HRT. exact (splice_agreement_remove_host dbg hp hpo hd HRT u u'). Qed.
+Check C06_splice_agreement_remove_host : forall dbg hp hpo hd u u', HostRT hp hpo hd -> Canon hp hpo hd u ->
+  has_host u = true -> byte_eqb (ser u) (path_start u) 47 = true -> path_starts_with_2slash u = false ->
+  set_host dbg hp hpo hd u None = Some (u', SOk) ->
+  Canon hp hpo hd u' /\ ser u' = cut_host u /\ parse_url dbg hp hpo hd None None (cut_host u) = POk u'.
+Print Assumptions C06_splice_agreement_remove_host.
+
+(* on "a://h:80/p?q#f" the cut text is "a:/p?q#f" *)
+Example C06_splice_agreement_remove_host_inhabited :
+  Canon ex_hp ex_hp ex_hd qx_u /\ has_host qx_u = true /\ byte_eqb (ser qx_u) (path_start qx_u) 47 = true
+  /\ path_starts_with_2slash qx_u = false
+  /\ (exists u', set_host true ex_hp ex_hp ex_hd qx_u None = Some (u', SOk) /\ ser u' = B "a:/p?q#f")
+  /\ cut_host qx_u = B "a:/p?q#f".
+Proof.
+  split; [exact (proj1 splice_canon_examples)|]. split; [vm_compute; reflexivity|]. split; [vm_compute; reflexivity|].
+  split; [vm_compute; reflexivity|]. split; [eexists; split; vm_compute; reflexivity | vm_compute; reflexivity].
+Qed.
+
+(* 28. WHOLE-URL parser agreement for set_scheme (Proofs/C06_SpliceScheme.v).  Changing the scheme changes how
+   everything behind it is parsed, so it is a splice only inside one scheme class - which is all the setter allows on
+   canonical records (non-special -> non-special, special non-file -> special non-file).  For a RAW argument of the
+   class scheme_arg (a letter, then letters / digits / '+' '-' '.', ANY case; no ':' and no TAB/LF/CR) and a call that
+   keeps the port (port u' = port u: leaves out exactly the coupling "a port equal to the new default is dropped",
+   C06_couple), Parser::parse_url on  argument ++ old text from the ':' on  (splice_scheme) returns exactly the setter's
+   record, whose scheme is the lower-cased argument.  All four canonical classes (opaque, '/'-led without authority,
+   authority non-special, authority special non-file). *)
+From RU Require Import Proofs.C06_SpliceScheme.
+
+Theorem C06_splice_agreement_set_scheme : forall dbg hp hpo hd u x u', HostRT hp hpo hd -> Canon hp hpo hd u ->
+  scheme_arg x = true -> set_scheme dbg u x = Some (u', SOk) -> nlen (ser u') <= U32_MAX_P -> port u' = port u ->
+  Canon hp hpo hd u' /\ scheme u' = Some (lower_text x)
+  /\ parse_url dbg hp hpo hd None None (splice_scheme u x) = POk u'.
+Proof. intros dbg hp hpo hd u x u' HRT. exact (splice_agreement_set_scheme dbg hp hpo hd HRT u x u'). Qed.
+Check C06_splice_agreement_set_scheme : forall dbg hp hpo hd u x u', HostRT hp hpo hd -> Canon hp hpo hd u ->
+  scheme_arg x = true -> set_scheme dbg u x = Some (u', SOk) -> nlen (ser u') <= U32_MAX_P -> port u' = port u ->
+  Canon hp hpo hd u' /\ scheme u' = Some (lower_text x)
+  /\ parse_url dbg hp hpo hd None None (splice_scheme u x) = POk u'.
+Print Assumptions C06_splice_agreement_set_scheme.
+
+(* "http://u:p@h/p" -> set_scheme("WS") -> "ws://u:p@h/p" (splice "WS://u:p@h/p");
+   "a://h:80/p?q#f" -> set_scheme("B+c") -> "b+c://h:80/p?q#f" *)
+Example C06_splice_agreement_set_scheme_inhabited :
+  scheme_arg (B "WS") = true /\ scheme_arg (B "B+c") = true
+  /\ (exists u', set_scheme true sx_u (B "WS") = Some (u', SOk) /\ ser u' = B "ws://u:p@h/p" /\ port u' = port sx_u)
+  /\ splice_scheme sx_u (B "WS") = B "WS://u:p@h/p"
+  /\ (exists u', set_scheme true qx_u (B "B+c") = Some (u', SOk) /\ ser u' = B "b+c://h:80/p?q#f" /\ port u' = port qx_u)
+  /\ splice_scheme qx_u (B "B+c") = B "B+c://h:80/p?q#f".
+Proof.
+  split; [vm_compute; reflexivity|]. split; [vm_compute; reflexivity|].
+  split; [eexists; split; [vm_compute; reflexivity | split; vm_compute; reflexivity]|].
+  split; [vm_compute; reflexivity|].
+  split; [eexists; split; [vm_compute; reflexivity | split; vm_compute; reflexivity]|].
+  vm_compute; reflexivity.
+Qed.
+
+(* 29. WHOLE-URL parser agreement for set_path on the AUTHORITY-LESS layout (Proofs/C06_SpliceNoAuth.v): canonical record
+   without authority whose path starts with '/' and that carries no "/." marker (path_start = scheme_end + 1).
+   Argument: '/'-led, a &str free of '?' / '#', whose next character (TAB/LF/CR skipped) is not a second '/' (the parser
+   would read an authority there: not a splice of the path), not ending in C0 / space when neither query nor fragment
+   follows.  Result: not starting with "//" (path_starts_with_2slash u' = false; otherwise F-C02-8: the parser inserts
+   the "/." marker where the setter does not - exact by C06_frame_path_noauth_exact).  Then the setter's record is
+   canonical and Parser::parse_url on the old serialization with the RAW argument in the path position returns exactly it.
+   GAP: the marker layout ("a:/.//p"), opaque paths (F-C02-3), file URLs. *)
+From RU Require Import Proofs.C06_SpliceNoAuth.
+
+Theorem C06_splice_agreement_set_path_noauth : forall dbg hp hpo hd u rest u', Canon hp hpo hd u ->
+  has_authority_b u = false -> byte_eqb (ser u) (scheme_end u + 1) 47 = true -> path_start u = scheme_end u + 1 ->
+  usv_list (47 :: rest) -> forallb no_qh (47 :: rest) = true -> inp_starts_with_char 47 rest = false ->
+  (query_start u = None -> fragment_start u = None -> first_ok (rev (47 :: rest))) ->
+  set_path dbg u (47 :: rest) = Some u' -> nlen (ser u') <= U32_MAX_P ->
+  path_starts_with_2slash u' = false ->
+  Canon hp hpo hd u' /\ parse_url dbg hp hpo hd None None (splice_path u (47 :: rest)) = POk u'.
+Proof. exact splice_agreement_set_path_noauth. Qed.
+Check C06_splice_agreement_set_path_noauth : forall dbg hp hpo hd u rest u', Canon hp hpo hd u ->
+  has_authority_b u = false -> byte_eqb (ser u) (scheme_end u + 1) 47 = true -> path_start u = scheme_end u + 1 ->
+  usv_list (47 :: rest) -> forallb no_qh (47 :: rest) = true -> inp_starts_with_char 47 rest = false ->
+  (query_start u = None -> fragment_start u = None -> first_ok (rev (47 :: rest))) ->
+  set_path dbg u (47 :: rest) = Some u' -> nlen (ser u') <= U32_MAX_P ->
+  path_starts_with_2slash u' = false ->
+  Canon hp hpo hd u' /\ parse_url dbg hp hpo hd None None (splice_path u (47 :: rest)) = POk u'.
+Print Assumptions C06_splice_agreement_set_path_noauth.
+
+(* "a:/p" -> set_path("/x y/../z") -> "a:/z"; the spliced text is "a:/x y/../z" *)
+Example C06_splice_agreement_set_path_noauth_inhabited :
+  Canon ex_hp ex_hp ex_hd na_u /\ ser na_u = B "a:/p" /\ has_authority_b na_u = false
+  /\ byte_eqb (ser na_u) (scheme_end na_u + 1) 47 = true /\ path_start na_u = scheme_end na_u + 1
+  /\ usv_list (B "/x y/../z") /\ forallb no_qh (B "/x y/../z") = true
+  /\ inp_starts_with_char 47 (B "x y/../z") = false
+  /\ first_ok (rev (B "/x y/../z"))
+  /\ (exists u', set_path true na_u (B "/x y/../z") = Some u' /\ ser u' = B "a:/z" /\ path_starts_with_2slash u' = false)
+  /\ splice_path na_u (B "/x y/../z") = B "a:/x y/../z".
+Proof. exact (splice_noauth_inhabited ex_hp ex_hp ex_hd). Qed.
+
+(* 30. The class F-C06-7 is also exact on file URLs whose path is longer than "/" and does not start with "//"
+   (file_path_inv; true of every parsed file URL): parse_path's file-only steps - a '/' inserted behind a normalized
+   drive letter that is the whole path so far, the rewriting of a drive-letter first segment "C|" to "C:", the collapse
+   of leading slashes - cannot occur there.  On the root path "/" they can (file:/// push("C|") gives file:///C:,
+   push("C:<TAB>x") gives file:///C:/x - two segments from one push; replayed on the crate): not covered. *)
+Theorem C06_7_class_exact_file : forall dbg s0 ps P seg s', nlen s0 = ps -> 1 < nlen P -> file_path_inv P -> usv_list seg ->
+  psm_extend_loop dbg STFile ps (s0 ++ P) [seg] = Some s' ->
+  (s' = s0 ++ push_text STFile P seg <-> known_c06_7 seg = false).
+Proof. exact push_class_exact_file. Qed.
+Check C06_7_class_exact_file : forall dbg s0 ps P seg s', nlen s0 = ps -> 1 < nlen P -> file_path_inv P -> usv_list seg ->
+  psm_extend_loop dbg STFile ps (s0 ++ P) [seg] = Some s' ->
+  (s' = s0 ++ push_text STFile P seg <-> known_c06_7 seg = false).
+Print Assumptions C06_7_class_exact_file.
+
+(* on "file:///a/b" (s0 = "file://", P = "/a/b"): push(".<TAB>.") pops, push("C|") is appended verbatim;
+   on the root path "/" push("C|") is rewritten to "C:" (outside the premise 1 < nlen P) *)
+Example C06_7_class_exact_file_inhabited :
+  file_path_inv (B "/a/b") /\ (exists c r, B "/a/b" = 47 :: c :: r /\ c <> 47)
+  /\ psm_extend_loop true STFile 7 (B "file://" ++ B "/a/b") [[46; 9; 46]] = Some (B "file:///a/")
+  /\ psm_extend_loop true STFile 7 (B "file://" ++ B "/a/b") [B "C|"] = Some (B "file:///a/b/C|")
+  /\ push_text STFile (B "/a/b") (B "C|") = B "/a/b/C|"
+  /\ psm_extend_loop true STFile 7 (B "file://" ++ B "/") [B "C|"] = Some (B "file:///C:")
+  /\ push_text STFile (B "/") (B "C|") = B "/C|".
+Proof.
+  assert (file_path_inv (B "/a/b")) as H by (exists 97, (B "/b"); split; [reflexivity | discriminate]).
+  split; [exact H|]. split; [exact H|]. repeat split; vm_compute; reflexivity.
+Qed.
